@@ -459,7 +459,11 @@ def main():
     # ---- step 2: correspondence + oracles -------------------------------------------------
     if args.replay:
         with open(args.replay) as f:
-            rp = json.load(f)
+            txt = f.read()
+        if txt.lstrip().startswith("{"):
+            rp = json.loads(txt)
+        else:   # a plain .ops file (corpus format)
+            rp = {"ops": [l for l in txt.split("\n") if l.strip()]}
         cases = [Case(rp["ops"], "replay")]
     else:
         cases = [Case(ops, "corpus") for ops in prop.corpus()]
